@@ -377,10 +377,16 @@ fn ds_case(r: &mut Rng) -> String {
     }
     elems.sort_by_key(|e| e.0);
     let single_str = r.chance(1, 3); // single values as PrimitiveValue::Str instead of Strs
+    run_ds(&elems, single_str)
+}
+
+/// write the elements as a data set (explicit VR little endian) with the real writer, read it back
+/// with the real reader, report original values, value bytes on the wire and values read
+fn run_ds(elems: &[(Tag, VR, Vec<String>)], single_str: bool) -> String {
     let mut obj = InMemDicomObject::new_empty();
     let ts = EXPLICIT_VR_LITTLE_ENDIAN.erased();
     let mut line = format!("ds {}", elems.len());
-    for (tag, vr, vals) in &elems {
+    for (tag, vr, vals) in elems {
         let as_str = vals.len() == 1 && (single_str || matches!(vr, VR::LT | VR::ST | VR::UT | VR::UR));
         let pv = if as_str {
             PrimitiveValue::Str(vals[0].clone())
@@ -449,6 +455,26 @@ fn main() {
         quiet_panics();
     }
     let mut out = Out::new();
+    if a.mode == "probe" {
+        // c10 probe <scs term hex|-> {<tag8hex> <VR> <k> <valhex>*k}...   (for findings and replays)
+        let x = &a.extra;
+        let mut elems: Vec<(Tag, VR, Vec<String>)> = vec![];
+        if x[0] != "-" {
+            elems.push((Tag(0x0008, 0x0005), VR::CS, vec![String::from_utf8(unhex(&x[0])).unwrap()]));
+        }
+        let mut i = 1;
+        while i + 2 < x.len() {
+            let t = u32::from_str_radix(&x[i], 16).unwrap();
+            let vr: VR = x[i + 1].parse().unwrap();
+            let k: usize = x[i + 2].parse().unwrap();
+            let vals = (0..k).map(|j| String::from_utf8(unhex(&x[i + 3 + j])).unwrap()).collect();
+            elems.push((Tag((t >> 16) as u16, t as u16), vr, vals));
+            i += 3 + k;
+        }
+        elems.sort_by_key(|e| e.0);
+        out.line(&run_ds(&elems, false));
+        return;
+    }
     if a.mode == "dump" {
         for (t, l) in TERMS.iter().zip(encode_tables(&TERMS)) {
             out.line(&l);
